@@ -142,9 +142,11 @@ func (brr *BalanceRR) checkSlowStart() {
 
 // Release releases backend list.
 func (brr *BalanceRR) Release() {
+	brr.Lock()
 	for _, back := range brr.backends {
 		back.Release()
 	}
+	brr.Unlock()
 }
 
 func confMapMake(conf cluster_table_conf.SubClusterBackend) map[string]*cluster_table_conf.BackendConf {
@@ -482,11 +484,11 @@ func (brr *BalanceRR) simpleBalance() (*backend.BfeBackend, error) {
 }
 
 func (brr *BalanceRR) stickyBalance(key []byte) (*backend.BfeBackend, error) {
-	candidates := make(BackendList, 0, brr.Len())
-	totalWeight := 0
-
 	brr.Lock()
 	defer brr.Unlock()
+
+	candidates := make(BackendList, 0, brr.Len())
+	totalWeight := 0
 
 	// select available candidates
 	brr.ensureSortedUnlocked()
